@@ -405,4 +405,65 @@ func nestShape(vs viewSpec, o op) (multi, nested, disagree, phOrder bool) {
 	return
 }
 
+// aliasFree: the writes a Set asks for do not overlap in storage, except in the mirrored way (the nested
+// rule's storage path is the outer rule's path extended by exactly the request parts that lie between them,
+// so both put the same part of the value at the same place), and where a placeholder is left for the keys
+// of the value, everything a Get of the request showed before is replaced by the value (a Get of the request
+// also returns the other instances stored already). Only then is "Get of the Set's own request returns
+// exactly the written value" implied by the statement; the per-leaf clause (coveredLeaves) needs neither.
+func aliasFree(vs viewSpec, o op, before M) bool {
+	ws, ok := covered(vs, o)
+	if !ok {
+		return false
+	}
+	ms := refMatchRules(vs, o.Req, func(string) bool { return true })
+	for _, m := range ms {
+		for _, p := range m.suffix {
+			if isPH(p) {
+				// ... and a second rule may write to what is another instance for the placeholder rule
+				if len(ms) > 1 {
+					return false
+				}
+				if old := refGet(vs, before, o.Req); old.Class != "not-found" && !(old.Class == "ok" && keysWithin(old.Val, norm(o.Val))) {
+					return false
+				}
+			}
+		}
+	}
+	for i, a := range ws {
+		for j, b := range ws {
+			if i == j || !hasPrefix(b.sto, a.sto) {
+				continue
+			}
+			// b is stored at or below a
+			if len(b.req) < len(a.req) || !hasPrefix(b.req, a.req) {
+				return false
+			}
+			if strings.Join(b.sto[len(a.sto):], ".") != strings.Join(b.req[len(a.req):], ".") {
+				return false
+			}
+		}
+	}
+	return true
+}
+
+// keysWithin: every key (recursively) of the map old is a key of nw
+func keysWithin(old, nw interface{}) bool {
+	om, ok := old.(M)
+	if !ok {
+		return true
+	}
+	nm, ok := nw.(M)
+	if !ok {
+		return false
+	}
+	for k, x := range om {
+		y, ok := nm[k]
+		if !ok || !keysWithin(x, y) {
+			return false
+		}
+	}
+	return true
+}
+
 const phOrderKey = "placeholder-instance-written-after-nested-path"
